@@ -67,6 +67,9 @@ def record(ctx: Ctx, templates: list, per_template: int, iters: int = 4, cache=N
             cfg = tb.gen_ac_policy(ctx.rng, cfg)
             cfg.update(bufsize=t["bufsize"], lstarts=t["lstarts"], nsteps=t["nsteps"], N=t["N"], an=ctx.rng.choice([1, 2, 3, 4]))
             seed = ctx.rng.randrange(2 ** 31)
+            if j % 8 == 0:
+                from .core import relieve_jit
+                relieve_jit()
             for tr in dof.record_offpolicy(cache, cfg, t["algo"], iters, seed):
                 cut_after_8_dones(tr)
                 traces.append(tr)
